@@ -39,14 +39,14 @@ def run(ctx):
     ctx.set_obligations(coq.compile_props('C02'))
     n = 1 if ctx.tier == 'quick' else 8
     checks = []
-    for i in range(260 * n):
+    for i in range(210 * n):
         mode = ctx.rng.choice(['terminal', 'terminal', 'mid', 'mid', 'mid', 'clifford', 'clifford'])
         c, qs = mcircuits.random_mcircuit(cirq, ctx.rng, qudits=(mode != 'clifford' and ctx.rng.random() < 0.4), mid=(mode != 'terminal'),
                                           cc=(mode != 'terminal'), clifford=(mode == 'clifford'),
                                           wires=(ctx.rng.randint(2, 4) if mode == 'clifford' else None),
                                           max_ops=(16 if mode == 'clifford' else 9), max_digits=(6 if mode == 'clifford' else 4))
         case_checks(ctx, cirq, c, qs, mode, checks)
-        if mode != 'terminal' and i % 3 == 0:
+        if mode != 'terminal' and i % 4 == 0:
             repetition_checks(ctx, cirq, c, qs, mode, checks)
     for i in range(70 * n):
         c, qs = mcircuits.clifford_deep(cirq, ctx.rng)
